@@ -8,9 +8,11 @@ wt=/tmp/wt/confirm_$dest
 rm -rf "$wt"; git -C /repo worktree prune
 git -C /repo worktree add -q --detach "$wt" HEAD || exit 2
 cd "$wt" || exit 2
-crate=$(python3 -c "import json;print(json.load(open('$src/meta.json')).get('demo_crate','des').rstrip('/'))")
-crate=${crate#/tmp/wt/*/}
-[ -d "$crate" ] || crate=$(echo "$crate" | sed 's#.*/\(des[^/]*\)$#\1#')
+crate=$(python3 -c "
+import json,re
+c=json.load(open('$src/meta.json')).get('demo_crate','des')
+m=re.findall(r'des-cqueue|des-net-utils|des-macros-core|des-macros|des', c)
+print(m[-1] if c.strip().startswith('/') and m else (m[0] if m else 'des'))")
 mkdir -p "$crate/tests"
 res() { echo "RESULT $dest: $*"; }
 if ! git apply --3way "$src/patch.diff" 2>/dev/null && ! patch -p1 --no-backup-if-mismatch < "$src/patch.diff" >/dev/null 2>&1; then res "patch does not apply"; cd /; git -C /repo worktree remove --force "$wt"; exit 1; fi
